@@ -60,7 +60,7 @@ func init() {
 				case *ast.IfStmt:
 					// if h.ID > v { v = h.ID }
 					b, ok := ast.Unparen(x.Cond).(*ast.BinaryExpr)
-					if !ok || x.Else != nil || x.Init != nil || len(x.Body.List) != 1 {
+					if !ok || x.Else != nil || len(x.Body.List) != 1 {
 						return true
 					}
 					as, ok := x.Body.List[0].(*ast.AssignStmt)
